@@ -9,6 +9,7 @@ import WpModel.Model.C06Branches
 import WpModel.Model.RatioCache
 import WpModel.Model.CssSpec
 import WpModel.Model.PresHints
+import WpModel.Model.CssWide
 
 namespace Wp.Drive.Cascade
 open Wp Wp.Cascade Wp.Computed Wp.Style Wp.StyleDoc
@@ -383,6 +384,12 @@ def handle (cmd : String) (args : List Sx) : Option String :=
     let c ← StyleMemo.ctxOf ex ch chain
     pure (" ".intercalate ((keys.zip (StyleMemo.readSeq c [] keys)).map
       (fun p => p.1 ++ "=" ++ showValE p.2)))
+  | "csswide", [names, text] => do
+    let names ← strList? names
+    let text ← text? text
+    pure (match CssWide.expansion names text with
+      | none => "not-css-wide"
+      | some l => ";".intercalate (l.map (fun p => p.1 ++ "=" ++ p.2)))
   | "hints", [.atom tag, .list attrs] => do
     let attrs ← allSome attr? attrs
     pure ("[" ++ " | ".intercalate (PresHints.hints tag attrs) ++ "]")
